@@ -121,7 +121,7 @@ def allowed_ranges(before, model, iso_path):
     for ns, p in names:
         if ns in ('iso', 'joliet'):
             t = img.trees.get(ns)
-            rec = t.entries.get(p) if t else None
+            rec = t.entries.get(model.phys(ns, p)) if t else None
             if rec is not None:
                 change.append((rec.off, rec.off + rec.length, 'dr.' + ns))
                 write.append((rec.off, rec.off + rec.length, 'dr.' + ns))
@@ -298,7 +298,7 @@ def run_mods(ctx, plan, d, disk, h, w):
         change, wr, am = allowed_ranges(before, model, mod['iso'])
         pdir = M.split(mod['iso'])[0]
         t = am.img.trees.get('iso')
-        prec = t.entries.get(pdir) if pdir != '/' else t.root
+        prec = t.entries.get(model.phys('iso', pdir)) if pdir != '/' else t.root
         if prec is not None and prec.size > 2048:
             ctx.probes['target_in_multi_sector_dir'] += 1
         if len(after) != len(before):
